@@ -327,6 +327,16 @@ def b_any(eng, st, args, kwargs, node):
     raise Unsupported("any()")
 
 
+def b_all(eng, st, args, kwargs, node):
+    m = eng.method_models.get("all()")
+    if m:
+        return m(eng, st, args[0], node)
+    r = _static_quantifier(eng, st, args[0], False) if args else None
+    if r is not None:
+        return r
+    raise Unsupported("all()")
+
+
 def b_frozenset(eng, st, args, kwargs, node):
     m = eng.method_models.get("frozenset()")
     if m:
@@ -363,6 +373,7 @@ BUILTINS = {
     "any": mk("any", b_any),
     "frozenset": mk("frozenset", b_frozenset),
     "object": mk("object", b_object),
+    "all": mk("all", b_all),
     "True": mkbool(True),
     "False": mkbool(False),
 }
